@@ -917,10 +917,17 @@ func buildScalarType(src protoreflect.FieldDescriptor, ext protoFieldExtensions)
 		}, nil
 
 	case protoreflect.BytesKind:
+		var bytesRules *schema_j5pb.BytesField_Rules
+		if constraint := ext.validate.GetBytes(); constraint != nil {
+			bytesRules = &schema_j5pb.BytesField_Rules{
+				MinLength: constraint.MinLen,
+				MaxLength: constraint.MaxLen,
+			}
+		}
 
 		return &schema_j5pb.Field_Bytes{
 			Bytes: &schema_j5pb.BytesField{
-				Rules: &schema_j5pb.BytesField_Rules{},
+				Rules: bytesRules,
 			},
 		}, nil
 
